@@ -12,13 +12,13 @@ OPK = {1: "Process", 2: "Process(flush)", 3: "Process(non-Gateable)", 4: "FlushA
 # one signature per code path: FlushAll and Close share theirs, so do Process with and without the flush flag
 SIGOP = {1: "Process", 2: "Process", 3: "Process(non-Gateable)", 4: "FlushAll/Close", 5: "FlushAll/Close", 6: "Process(no id)", 7: "concurrent", 8: "Reopen/Type/Now"}
 # at the first failing call the property-level (observation-only) oracles name the violation; model differences come after
-PRIO = ["KCompositeMutated", "KSentGateable", "KLinger", "KLost", "KDup", "KOrder", "KIdent", "KEmptyId", "KIndex", "KConc", "KRes", "KGated", "KSent", "KCompose", "KComp"]
+PRIO = ["KCompositeMutated", "KSentStale", "KSentGateable", "KLinger", "KLost", "KDup", "KOrder", "KIdent", "KEmptyId", "KIndex", "KConc", "KRes", "KGated", "KSent", "KCompose", "KComp"]
 
 # which mismatch kinds speak about which property
 RELEVANT = {
     "C11": lambda k, op: k in ("KRes", "KComp", "KCompose", "KSent", "KGated", "KDup", "KOrder", "KLost", "KIdent", "KEmptyId",
-                               "KSentGateable", "KIndex", "KConc", "KCompositeMutated") or (k == "KLinger" and op == 7),
-    "C17": lambda k, op: k in ("KLinger", "KGated", "KSent", "KCompose", "KIndex") or (k == "KRes" and op in (1, 2, 4, 5, 7, 8)) or (k in ("KDup", "KLost") and op == 7),
+                               "KSentGateable", "KSentStale", "KIndex", "KConc", "KCompositeMutated") or (k == "KLinger" and op == 7),
+    "C17": lambda k, op: k in ("KLinger", "KGated", "KSent", "KSentStale", "KCompose", "KIndex") or (k == "KRes" and op in (1, 2, 4, 5, 7, 8)) or (k in ("KDup", "KLost") and op == 7),
 }
 
 ARGS = {
